@@ -160,3 +160,12 @@ impl<I: Interner> chalk_solve::Solver<I> for RecursiveSolver<I> {
         unimplemented!("Recursive solver doesn't support multiple answers")
     }
 }
+
+#[cfg(feature = "verif-hooks")]
+impl<I: Interner> RecursiveSolver<I> {
+    /// Verification hook: the solver's persistent state between calls:
+    /// (stack depth, search graph size, sorted cache entries).
+    pub fn verif_fingerprint(&self) -> (usize, usize, Vec<String>) {
+        self.ctx.verif_state()
+    }
+}
